@@ -13,6 +13,9 @@ Section D.
     else nzero.
   Definition d_smin_dy (x y e : T) : T := d_smin_dx y x e.
   Definition d_smax_dx (x y e : T) : T := d_smin_dx (nopp x) (nopp y) e.
+  Definition d_smax_dy (x y e : T) : T := d_smin_dx (nopp y) (nopp x) e.
+  Definition d_sstep (x : T) : T :=
+    if nleb x nzero then nzero else if nleb x nunit then nsub (nmul (nZ 6) x) (nmul (nZ 6) (nmul x x)) else nzero.
   Definition d_sabs (x e : T) : T :=
     if nleb x (ndiv (nopp e) ntwo) then nopp nunit
     else if nleb x (ndiv e ntwo) then ndiv (nmul ntwo x) e
